@@ -31,10 +31,9 @@ func (cmd *Commands) Join(channels ...string) {
 	var buffer string
 
 	for i := 0; i < len(channels); i++ {
-		if len(buffer+","+channels[i]) > max {
+		if buffer != "" && len(buffer+","+channels[i]) > max {
 			cmd.c.Send(&Event{Command: JOIN, Params: []string{buffer}})
 			buffer = ""
-			continue
 		}
 
 		if buffer == "" {
@@ -335,10 +334,9 @@ func (cmd *Commands) List(channels ...string) {
 	var buffer string
 
 	for i := 0; i < len(channels); i++ {
-		if len(buffer+","+channels[i]) > max {
+		if buffer != "" && len(buffer+","+channels[i]) > max {
 			cmd.c.Send(&Event{Command: LIST, Params: []string{buffer}})
 			buffer = ""
-			continue
 		}
 
 		if buffer == "" {
